@@ -30,6 +30,12 @@ fn max_limbs(m: &Mon, r: &mut Rng) -> usize {
 
 fn value(m: &Mon, r: &mut Rng, radix: u32) -> BigUint {
     let mx = max_limbs(m, r);
+    if r.chance(1, 1500) {
+        // a few very long values per run: the parser multiplies a radix power of 2048 * 2^j words by a leading block
+        // of a few words, the printer divides by such powers (chunked schoolbook multiplication, unbalanced division)
+        let n = 2048 * (1usize << r.usize(2)) + r.usize(40);
+        return nat(&gen::shape(r, n));
+    }
     if r.chance(1, 12) {
         // any word count inside the divide-and-conquer range of the printer and the parser: their tables of
         // radix powers gain a level at irregular lengths (63, 125, 127, 249, 253, ... words depending on
